@@ -488,7 +488,24 @@ def _check_fresh_frame_keys(run: Run, ctx0, m, cls, vc: FuncInfo, w: ast.With) -
             continue
         n_keys += 1
         kt = ev.args[0]
-        fresh = contains(kt, lambda s: s[0] == "app" and s[1][0] == "global" and s[1][1].rsplit(".", 1)[-1].rsplit(":", 1)[-1] in ("make_args_unique", "arg_name"))
+        def _always_fresh(t_) -> bool:
+            # on every alternative the name is taken out of what make_args_unique / arg_name returned (a renaming done
+            # only under some condition - "when an argument mentions the name" - leaves the other alternative raw)
+            if not isinstance(t_, tuple) or not t_:
+                return False
+            if t_[0] == "app" and t_[1][0] == "global" and t_[1][1].rsplit(".", 1)[-1].rsplit(":", 1)[-1] in ("make_args_unique", "arg_name"):
+                return True
+            if t_[0] == "phi":
+                return bool(t_[1]) and all(_always_fresh(a_) for a_ in t_[1])
+            if t_[0] == "ifexp":
+                return _always_fresh(t_[2]) and _always_fresh(t_[3])
+            if t_[0] in ("attr", "index", "elem", "subscript", "slice"):
+                return _always_fresh(t_[1])
+            if t_[0] == "app" and t_[1] == ("global", "builtins.zip") and t_[2]:
+                return _always_fresh(t_[2][0])
+            return False
+
+        fresh = _always_fresh(kt) or (contains(kt, lambda s: s[0] == "app" and s[1][0] == "global" and s[1][1].rsplit(".", 1)[-1].rsplit(":", 1)[-1] in ("make_args_unique", "arg_name")) and not contains(kt, lambda s: s[0] in ("phi", "ifexp")))
         all_fresh = all_fresh and fresh
         run.check(
             fresh,
@@ -711,6 +728,13 @@ def _loop_or_self(n: ast.AST) -> ast.AST:
     return n
 
 
+def _subterms(t):
+    if isinstance(t, tuple):
+        yield t
+        for x in t:
+            yield from _subterms(x)
+
+
 def _check_shadow_lambda(run: Run, ctx, m, vl: FuncInfo, prop: str) -> None:
     """visit_Lambda of a substituter: shadow frame with all five parameter kinds around the body visit."""
     rule_d = f"{prop}.R3d" if prop == "C02" else f"{prop}.R2"
@@ -760,6 +784,35 @@ def _check_shadow_lambda(run: Run, ctx, m, vl: FuncInfo, prop: str) -> None:
         ok = len(defines) == 1 and len(pops) == 1 and defines[0].recv == pops[0].recv and event_before(ctx, vl, defines[0], gv) and event_before(ctx, vl, gv, pops[0]) and event_after(ctx, vl, pops[0], gv)
     if not withs and ok is not None:
         run.check(ok, rule_d, vl, vl.node, "shadow frame pushed before and popped after the body is visited, on every path", "the shadow frame is not pushed before / popped after the visit of the lambda body on every path")
+    # what the frame is keyed by: the parameters' *names* (ast.arg.arg) - a frame keyed by the ast.arg nodes themselves
+    # (dict.fromkeys(all_args)) never matches a name that is looked up and shadows nothing
+    def _names(t_, depth=2) -> bool:
+        if contains(t_, lambda s_: s_[0] == "attr" and s_[2] == "arg"):
+            return True
+        if depth > 0:
+            for s_ in _subterms(t_):
+                if len(s_) >= 3 and s_[0] == "app" and isinstance(s_[1], tuple) and len(s_[1]) == 2 and s_[1][0] == "global":
+                    g_ = m.lookup_target(s_[1][1])
+                    if isinstance(g_, FuncInfo):
+                        try:
+                            if _names(strip_sites(ctx.analysis(g_).return_term()), depth - 1):
+                                return True
+                        except AnalysisError:
+                            pass
+        return False
+
+    def _filled_by_name(owner) -> bool:
+        # frame built empty and filled key by key: hidden[a.arg] = None / names.append(a.arg) / names.add(a.arg)
+        for x_ in own_nodes(owner):
+            if isinstance(x_, ast.Subscript) and isinstance(x_.ctx, ast.Store) and any(isinstance(y_, ast.Attribute) and y_.attr == "arg" for y_ in ast.walk(x_.slice)):
+                return True
+            if isinstance(x_, ast.Call) and isinstance(x_.func, ast.Attribute) and x_.func.attr in ("append", "add", "setdefault") and x_.args and any(isinstance(y_, ast.Attribute) and y_.attr == "arg" for y_ in ast.walk(x_.args[0])):
+                return True
+        return False
+
+    for d_ in defines:
+        kt_ = d_.args[0] if d_.args else ("top", "?")
+        run.check(_names(kt_) or (kt_ in (("dict", ()), ("list", ()), ("app", ("global", "builtins.set"), (), ()), ("app", ("global", "builtins.dict"), (), ())) and _filled_by_name(vl)), rule_d, vl, stmt_of(d_.call) if d_.owner is vl else vl.node, "the shadow frame is keyed by parameter names", f"the shadow frame of visit_Lambda is keyed by {show(kt_)[:100]}, not by the parameters' names (a.arg): a name that is looked up never matches, the lambda's own parameters are not hidden and a pending substitution replaces them", "{a.arg: .. for a in all_args}", show(kt_))
     # R3e: capture avoidance - the binder must be renamed (fresh) while substitutions are pending
     renames = any(isinstance(c.func, ast.Name) and c.func.id in ("arg_name", "make_args_unique") for c in calls_in(vl))
     run.check(renames, rule_e, vl, vl.node, "binders are renamed (or arguments proved closed) before substituting underneath them", "visit_Lambda keeps the lambda's own parameter names while substitutions are pending: a free name of a substituted argument that equals a parameter of this nested lambda is captured by it", "alpha-rename the parameters with fresh names (as make_args_unique does) before visiting the body", key="binder kept while substitutions are pending")
